@@ -7,6 +7,8 @@ Require Import Cirbo.Model.BitIO Cirbo.Model.DictIO Cirbo.Model.Codec Cirbo.Mode
 Require Import Cirbo.Generated.CodecTables.
 Require Import Cirbo.Proofs.BitIOFacts Cirbo.Proofs.DictIOFacts Cirbo.Proofs.CodecTableFacts Cirbo.Proofs.CodecIds.
 Require Import Cirbo.Proofs.IsoFacts Cirbo.Proofs.CodecFacts Cirbo.Proofs.CodecCheckFacts Cirbo.Proofs.C16Main.
+Require Import Cirbo.Model.Db Cirbo.Generated.CodecAlgGen.
+Require Import Cirbo.Proofs.CodecAlgGenBits Cirbo.Proofs.CodecAlgGenEnc Cirbo.Proofs.CodecAlgGenSum.
 
 (* ---- the regenerated tables (translator T8) ---- *)
 Theorem C16_type_codes_injective : forall a b n,
@@ -25,6 +27,80 @@ Proof. exact tables_inverse. Qed.
 Theorem C16_format_arity_accepted : forall g n,
   gate_type_to_int g = Some n -> den_accepts g (get_arity g) = true.
 Proof. exact format_arity_accepted. Qed.
+
+(* ---- the regenerated algorithms (translator T16) ----
+   Generated/CodecAlgGen.v is produced on every check from the STATEMENTS of bit_io.py, binary_dict_io.py and
+   circuits_encoding.py (and Circuit.gates_number); every generated function equals the hand model the
+   theorems below are about.  bw_of_bits bs / br_at data n (Proofs/CodecAlgGenBits.v) are the BitWriter state
+   after writing the bits bs / the BitReader state after reading n bits of data (every state reachable from
+   the constructors is of that form); a stream that is read is the list of bytes not yet read, a stream that
+   is written the list of bytes written so far; zids injects the gate numbering into Z.  Side conditions:
+   numbers, widths and lengths are natural numbers (Z.of_N / Z.of_nat), a reader position lies inside the
+   data; the fuel of the `while pending` loop of _enumerate_gates is the number of non-input gates. *)
+Theorem C16_codec_regenerated :
+  (* bit_io.py *)
+  (gen_BitWriter___init__ = Ok (bw_of_bits []) /\
+  (forall bs, gen_BitWriter___bytes__ (bw_of_bits bs) = Ok (pack bs)) /\
+  (forall bs b, gen_BitWriter_write (bw_of_bits bs) b = Ok (bw_of_bits (bs ++ [b]))) /\
+  (forall bs x k, gen_BitWriter_write_number (bw_of_bits bs) (Z.of_N x) (Z.of_nat k)
+                  = do nb <- write_number x k; Ok (bw_of_bits (bs ++ nb))) /\
+  (forall bs x, gen_BitWriter_write_byte (bw_of_bits bs) (Z.of_N x)
+                = do nb <- write_byte x; Ok (bw_of_bits (bs ++ nb))) /\
+  (forall data, gen_BitReader___init__ data = Ok (br_at data 0)) /\
+  (forall data n, (n <= 8 * length data)%nat ->
+     gen_BitReader_read (br_at data n)
+     = do br <- br_read (skipn n (unpack data)); Ok (fst br, br_at data (S n))) /\
+  (forall data n k, (n <= 8 * length data)%nat ->
+     gen_BitReader_read_number (br_at data n) (Z.of_nat k)
+     = do xr <- read_number k (skipn n (unpack data)); Ok (Z.of_N (fst xr), br_at data (n + k))) /\
+  (forall data n, (n <= 8 * length data)%nat ->
+     gen_BitReader_read_byte (br_at data n)
+     = do xr <- read_byte (skipn n (unpack data)); Ok (Z.of_N (fst xr), br_at data (n + 8))) /\
+  (* and what the hand reader leaves is the stream without the bits read *)
+  (forall k r x r', read_number k r = Ok (x, r') -> r' = skipn k r /\ (k <= length r)%nat)) /\
+  (* binary_dict_io.py *)
+  ((gen_DICT_SIZE_BYTE_SIZE = Z.of_nat DICT_SIZE_BYTE_SIZE /\
+   gen_DICT_KEY_BYTE_SIZE = Z.of_nat DICT_KEY_BYTE_SIZE /\
+   gen_DICT_VALUE_BYTE_SIZE = Z.of_nat DICT_VALUE_BYTE_SIZE) /\
+  (forall s n, gen__read_exact_number_of_bytes s (Z.of_nat n) = read_exact n s) /\
+  (forall s n, gen__read_unsigned_number s (Z.of_nat n)
+               = do r <- read_unsigned n s; Ok (Z.of_N (fst r), snd r)) /\
+  (forall s x n, gen__write_unsigned_number s (Z.of_N x) (Z.of_nat n) = do b <- to_bytes x n; Ok (s ++ b)) /\
+  (forall s, gen__expect_eof s = do _ <- expect_eof s; Ok []) /\
+  (forall s, gen_read_binary_dict s = do d <- read_binary_dict s; Ok (d, [])) /\
+  (forall d s, gen_write_binary_dict d s = do b <- write_binary_dict d; Ok (s ++ b))) /\
+  (* circuits_encoding.py, Circuit.gates_number *)
+  (gen_GATE_TYPE_BIT_SIZE = Z.of_nat GATE_TYPE_BIT_SIZE /\
+  (forall t, kget gtype_beq gen__gate_type_to_int t = option_map Z.of_N (gate_type_to_int t)) /\
+  (forall n, kget Z.eqb gen__int_to_gate_type (Z.of_N n) = int_to_gate_type n) /\
+  (forall t, gen__get_arity t = Ok (Z.of_nat (get_arity t))) /\
+  (forall n, gen__generate_label (Z.of_N n) = Ok (gen_label n)) /\
+  (forall c excl, gen_Circuit_gates_number c excl = Ok (Z.of_nat (gates_number c excl))) /\
+  (forall c, gen_Circuit_gates_number c (Some [INPUT]) = Ok (Z.of_nat (intermediates c))) /\
+  (forall c, gen__get_word_size c = Ok (Z.of_nat (word_size c))) /\
+  (forall c, gen__enumerate_gates (length (non_input_labels c)) c = do d <- enumerate_gates c; Ok (zids d)) /\
+  (forall bs ws, gen__encode_header (bw_of_bits bs) (Z.of_nat ws)
+                 = do b <- write_byte (N.of_nat ws); Ok (bw_of_bits (bs ++ b))) /\
+  (forall bs ws c, gen__encode_circuit_parameters (bw_of_bits bs) (Z.of_nat ws) c
+     = do p1 <- write_number (N.of_nat (length (inputs c))) ws;
+       do p2 <- write_number (N.of_nat (length (outputs c))) ws;
+       do p3 <- write_number (N.of_nat (intermediates c)) ws;
+       Ok (bw_of_bits (bs ++ p1 ++ p2 ++ p3))) /\
+  (forall bs c d ws l g, get_gate c l = Ok g ->
+     gen__encode_gate (bw_of_bits bs) (l, g) (zids d) (Z.of_nat ws)
+     = do b <- encode_gate c d ws l; Ok (bw_of_bits (bs ++ b))) /\
+  (forall bs c ws,
+     gen__encode_circuit_body (length (non_input_labels c)) (bw_of_bits bs) (Z.of_nat ws) c
+     = do d <- enumerate_gates c;
+       do gb <- mapM (encode_gate c d ws) (dkeys d);
+       do ob <- mapM (write_id d ws) (outputs c);
+       Ok (bw_of_bits (bs ++ concat gb ++ concat ob))) /\
+  (* encode_circuit: every circuit, same bytes or same error *)
+  (forall c, gen_encode_circuit (length (non_input_labels c)) c = encode_circuit c) /\
+  (* decode_circuit (with _decode_header, _decode_circuit_parameters, _decode_gate, _decode_circuit_body):
+     every byte string, same circuit or same error *)
+  (forall bs, gen_decode_circuit bs = decode_circuit bs)).
+Proof. exact codec_regenerated. Qed.
 
 (* ---- bit level ---- *)
 (* bits written one by one and turned into bytes are read back unchanged (then < 8 padding bits) *)
